@@ -762,22 +762,24 @@ func (e *Engine) RunHarness(fn *ssa.Function) *HarnessResult {
 func (h *harnessRun) runPath(script []int, solver *Solver) (newWork [][]int) {
 	e := h.eng
 	i := &interpreter{
-		eng:       e,
-		prog:      e.Prog,
-		globals:   make(map[*ssa.Global]*value),
-		initDone:  make(map[*ssa.Package]bool),
-		tb:        NewTB(),
-		locks:     make(map[*value]int),
-		onceDone:  make(map[*value]bool),
-		timers:    make(map[*value]bool),
-		syncMaps:  make(map[*value]*omap),
+		eng:          e,
+		prog:         e.Prog,
+		globals:      make(map[*ssa.Global]*value),
+		initDone:     make(map[*ssa.Package]bool),
+		tb:           NewTB(),
+		locks:        make(map[*value]int),
+		onceDone:     make(map[*value]bool),
+		timers:       make(map[*value]bool),
+		guardCells:   make(map[*value]*value),
+		guardMaps:    make(map[*omap]*value),
+		syncMaps:     make(map[*value]*omap),
 		atomicValues: make(map[*value]value),
-		wg:        make(map[*value]int),
-		built:     make(map[*ssa.Package]bool),
-		natives:   make(map[string]value),
-		trace:     e.Trace,
-		funcsSeen: make(map[*ssa.Function]bool),
-		clockNs:   1700000000 * 1e9,
+		wg:           make(map[*value]int),
+		built:        make(map[*ssa.Package]bool),
+		natives:      make(map[string]value),
+		trace:        e.Trace,
+		funcsSeen:    make(map[*ssa.Function]bool),
+		clockNs:      1700000000 * 1e9,
 	}
 	if rt := e.Prog.ImportedPackage("runtime"); rt != nil {
 		i.runtimeErrorString = rt.Type("errorString").Object().Type()
